@@ -135,7 +135,17 @@ def r2_sum(ctx):
         i0, e0 = pr[0]
         step = e0.data[0][1][1]
         guard = [(i, e) for i, e in enumerate(p.events) if e.kind == "cond" and e.data[0][0] == "call" and callee(e.data[0]) == "builtins.hasattr" and e.data[0][2] == (step, const("predict")) and e.data[1] is True]
-        ctx.check("R2", qn + "|guarded-by-hasattr", True if guard and guard[0][0] < i0 else False, "predict is called only on steps that have it",
+        okg = True if guard and guard[0][0] < i0 else False
+        if not okg:
+            # the same guard written as the filter of a comprehension over the steps: (s.predict(c) for _, s in self.steps if hasattr(s, "predict"))
+            is_guard = lambda c: c[0] == "call" and callee(c) == "builtins.hasattr" and c[2] == (step, const("predict"))
+            for e in p.events:
+                for x in walk(e.data):
+                    if isinstance(x, tuple) and x and x[0] == "comp" and any(is_guard(c) for c in x[5]) and any(y == e0.data[0] for y in walk(x[2])):
+                        okg = True
+            if not okg and any(isinstance(x, tuple) and x and x[0] == "call" and callee(x) in ("builtins.hasattr", "builtins.getattr", "builtins.callable") for e in p.events for x in walk(e.data)):
+                okg = None            # some other test of what the step offers: not decided here
+        ctx.check("R2", qn + "|guarded-by-hasattr", okg, "predict is called only on steps that have it",
                   bad="predict is called without the hasattr(step, 'predict') guard (block reductions would raise)", fn=qn)
         ctx.check("R2", qn + "|predict-on-coordinates", True if e0.data[0][2] == (("param", "coordinates"),) else None, "each step predicts at the given coordinates", fn=qn)
         augs = [e for e in p.events if e.kind == "aug"]
